@@ -161,7 +161,30 @@ theorem key_agreement_on_web_changes_no_did (hfix : Fixed cfg) (hms : cfg.method
   show ((w, "err:" ++ "keyagreement") : World × String) = (w, "err:keyagreement")
   exact Prod.ext rfl (show "err:" ++ "keyagreement" = "err:keyagreement" by decide)
 
+/-- **a database error in the clean-up transaction is covered by the stop theorems**: `transactionHelper` hands the
+    error to the caller and leaves versions + change records behind — the world is the one a process stop at some point of
+    the Commit loop leaves (`cleanup_failure_is_a_stop`), hence reachable, hence `stopped_operation_resolved` /
+    `all_or_nothing` say what the sweep makes of it. Also when the did:nuts Commit had failed before (`nf`). -/
+theorem cleanup_failure_reach {w : World} (h : Reach cfg w) (o : Op) (order : List Method) (nf : Bool)
+    (hc : Clean w.dids o.subject) : Reach cfg (stepOpCleanupFails cfg w o order nf).1 := by
+  obtain ⟨f, hf⟩ := cleanup_failure_is_a_stop cfg w o order nf
+  rw [hf]
+  exact Reach.op o order f h hc
+
 end
+
+/-- the caller of an operation whose clean-up failed is told so, and the change records are still there: the sweep has
+    something to find (non-vacuity of `cleanup_failure_reach`; both flavours; after the threshold the sweep keeps the
+    published change and drops the unpublished one on BOTH DIDs) -/
+example :
+    let cfg := cfgNow [.nuts, .web]
+    let w0 := (stepOp cfg {} (.create "s") [.nuts, .web] .none).1
+    let a := stepOpCleanupFails cfg w0 (.addSvc "s" "A") [.web, .nuts] false
+    let b := stepOpCleanupFails cfg w0 (.addSvc "s" "A") [.web, .nuts] true
+    a.2 = "err:db" ∧ b.2 = "err:db" ∧ logCount a.1 = 2 ∧ logCount b.1 = 2 ∧
+    ((sweep cfg id (tick 61 a.1)).1.dids.map (fun r => r.vers.map (·.c.svcs))) = [[["A"], []], [["A"], []]] ∧
+    ((sweep cfg id (tick 61 b.1)).1.dids.map (fun r => r.vers.map (·.c.svcs))) = [[[]], [[]]] ∧
+    logCount (sweep cfg id (tick 61 a.1)).1 = 0 ∧ logCount (sweep cfg id (tick 61 b.1)).1 = 0 := by decide
 
 /-- **key agreement × did:web is all-or-nothing** (`Create`): with the encryption-key option on a node that has did:web
     enabled nothing is created, for NO method, in whatever order the method map is visited -/
